@@ -305,3 +305,47 @@ func verifyFunc(prog *Program, fi *FuncInfo, fc *FuncContract, mode *ModeDef) (r
 	}
 	return res
 }
+
+
+// verifyLemmas: obligations over the specification functions alone (no code).
+func verifyLemmas(prog *Program, tag string) *VerifyResult {
+	res := &VerifyResult{Func: "lemma"}
+	var anyFn *FuncInfo
+	for _, k := range sortedKeys(prog.Funcs) {
+		if prog.Funcs[k].Pkg == prog.Main {
+			anyFn = prog.Funcs[k]
+			// prefer a function from a file that imports the platform packages
+			if strings.HasPrefix(filepath.Base(prog.Fset.Position(anyFn.Decl.Pos()).Filename), "backend_") {
+				break
+			}
+		}
+	}
+	if anyFn == nil {
+		res.Err = "no function to anchor lemmas"
+		return res
+	}
+	x := newExec(prog, prog.Main)
+	x.top = &FuncInfo{Key: "lemma", Decl: anyFn.Decl, Obj: anyFn.Obj, Pkg: anyFn.Pkg}
+	x.topC = &FuncContract{Key: "lemma"}
+	defer func() {
+		if r := recover(); r != nil {
+			if u, ok := r.(unsupported); ok {
+				res.Err = "unsupported: " + u.msg
+			} else {
+				res.Err = fmt.Sprintf("engine panic: %v\n%s", r, debug.Stack())
+			}
+		}
+		res.Obligations = x.vc.obls
+	}()
+	st := newState()
+	for _, l := range prog.Contracts.Lemmas {
+		if tag != "" && !hasTag(l.Tags, tag) {
+			continue
+		}
+		env := &SpecEnv{x: x, vars: map[string]TV{}, st: st, old: st, noLocals: true}
+		for _, g := range x.specConjuncts(l.Expr, env) {
+			x.assert(st, "lemma", g.label(l.Label), g.t, l.Tags, token.NoPos)
+		}
+	}
+	return res
+}
